@@ -30,14 +30,26 @@ def gen(rng, tier):
                 sub = dict(id=1000 + fid, kind="nested", dur=0,
                            nested=dict(workers=1, sub=[dict(id=2000 + fid, kind="work", dur=D)]))
             ts = dict(id=fid, kind="nested", dur=0, nested=dict(workers=rng.randint(1, 2), sub=[sub]))
-        else:
+        elif r < 0.93:
             ts = dict(id=fid, kind="child", dur=0, child_dur=D, hold=D)
+        elif r < 0.97:
+            ts = dict(id=fid, kind="child", dur=0, child_dur=D, hold=0.01)       # finishes, leaves a subprocess behind
+        else:
+            ts = dict(id=fid, kind="nested_leave", dur=0, sub_dur=D)             # finishes, leaves a busy nested executor
         main.append(submit_op("A", fid, ts, []))
         fid += 1
         if rng.random() < 0.2:
             main.append({"op": "sleep", "d": rng.choice([0.001, 0.03, 0.3])})
     if rng.random() < 0.8:
         main.append({"op": "sleep", "d": rng.choice([0.0, 0.001, 0.021, 0.05, 0.3, 1.0])})
+    if rng.random() < 0.15:
+        # the pool is idle (nothing pending) when the forced shutdown arrives, but workers have descendants
+        main = [o for o in main if not (o["op"] == "submit" and o["task"].get("dur", 0) >= 1e3)
+                and not (o["op"] == "submit" and o["task"].get("kind") in ("nested",))
+                and not (o["op"] == "submit" and o["task"].get("kind") == "child" and o["task"].get("hold", 0) >= 1e3)]
+        threads[0] = main
+        main.append(submit_op("A", 7000, dict(id=7000, kind=rng.choice(["child", "nested_leave"]), dur=0, child_dur=D, hold=0.01, sub_dur=D), []))
+        main.append({"op": "wait_all"})
     if via == "shutdown":
         main.append({"op": "shutdown", "ex": "A", "wait": True, "kill": True})
     else:
@@ -49,6 +61,14 @@ def gen(rng, tier):
         main.append({"op": "result", "f": 9500})
         main.append({"op": "shutdown", "ex": "B", "wait": True, "kill": True})
     return dict(family="kill", knobs=gen_knobs(rng, tier), model=gen_model(rng), threads=threads, faults=[], D=D, via=via)
+
+
+def _ancestors(k, p):
+    out = []
+    while p.orig_ppid in k.procs and p.orig_ppid != 100:
+        out.append(p.orig_ppid)
+        p = k.procs[p.orig_ppid]
+    return out
 
 
 class C06(Prop):
@@ -81,8 +101,14 @@ class C06(Prop):
         if call is None or ret is None:
             return out
         dt = ret["now"] - call["now"]
+        # a worker that decided to leave on idle time-out right before / while the call was handled
+        racing = [n for n in res.obs.notes if n[0] == "mpinfo" and n[3].startswith("Shutting down worker after timeout")
+                  and res.kernel.procs[n[1]].orig_ppid == 100 and n[2] <= ret["now"] + 1e-9
+                  and (res.kernel.procs[n[1]].death is None or res.kernel.procs[n[1]].death >= call["now"] - 1e-9)]
         if dt >= BOUND:
-            out.append(V(pid, "C06/not-prompt", "forced shutdown took %.1f virtual seconds (tasks last %g s)" % (dt, res.spec["D"])))
+            why = "/worker-left-on-timeout-first" if racing else ""
+            out.append(V(pid, "C06/not-prompt%s" % why, "forced shutdown took %.1f virtual seconds (tasks last %g s)%s" % (
+                dt, res.spec["D"], "; workers %r had announced an idle time-out exit" % [n[1] for n in racing] if racing else "")))
         if ret["phase"] == "exc":
             out.append(V(pid, "C06/forced-shutdown-raised/%s" % ret["r"]["e"]["type"], str(ret["r"])[:300]))
             return out
@@ -100,6 +126,9 @@ class C06(Prop):
             if p.death is None or p.death > ret["now"] + 1e-9:
                 if p.birth <= ret["now"] and p.role != "tracker":
                     when = "born-before-the-call" if p.birth < call["now"] or p.exec_step < call["step"] else "spawned-during-the-call"
+                    if when == "born-before-the-call" and racing and any(
+                            q.pid in [n[1] for n in racing] for q in [p] + [res.kernel.procs[x] for x in _ancestors(res.kernel, p)]):
+                        when = "worker-left-on-timeout-first"
                     out.append(V(pid, "C06/process-survives-forced-shutdown/%s/%s" % (p.role, when),
                                  "pid %d (%s, child of %d, born %.4f) alive when the call (%.4f..%.4f) returned (death=%r)" % (
                                      p.pid, p.role, p.orig_ppid, p.birth, call["now"], ret["now"], p.death)))
@@ -119,7 +148,7 @@ class C06(Prop):
                 ref = reference(rec["task"])
                 if ref[0] == "value" and payload != ref[1]:
                     out.append(V(pid, "C06/misattributed-result", "task %r holds %r" % (rec["task"]["id"], payload)))
-                if rec["task"].get("dur", 0) >= 1e3:
+                if rec["task"].get("dur", 0) >= 1e3 and rec["task"].get("kind") == "work":
                     out.append(V(pid, "C06/long-task-finished", "task %r (%g s) has a value" % (rec["task"]["id"], rec["task"]["dur"])))
         for e in res.obs.events:
             if e["op"] == "submit_expect_error" and e["phase"] == "ret" and not e["r"].get("skipped"):
